@@ -423,24 +423,26 @@ pub fn i128_shifted_div_mod_floor(
 ) -> Option<(i128, i128)> {
     let (mut xh, mut xl) =
         u128_mul_u128(x.unsigned_abs(), ten_pow(p) as u128);
-    let r = u256_idiv_u128(&mut xh, &mut xl, y.unsigned_abs());
+    let abs_y = y.unsigned_abs();
+    let mut r = u256_idiv_u128(&mut xh, &mut xl, abs_y);
     if xh != 0 || xl > i128::MAX as u128 {
         return None;
     }
     // xl <= i128::MAX, so xl as i128 is safe.
     let mut q = xl as i128;
-    // r < y, so r as i128 is safe.
-    let mut r = r as i128;
-    if x.is_negative() {
-        if y.is_negative() {
-            r = r.neg();
-        } else {
-            q = q.neg() - 1;
-            r = y - r;
+    if x.is_negative() != y.is_negative() {
+        // The quotient is negative: round it against floor. This must only
+        // be done if the division is not exact!
+        q = q.neg();
+        if r != 0 {
+            q -= 1;
+            r = abs_y - r;
         }
-    } else if y.is_negative() {
-        q = q.neg() - 1;
-        r -= y;
+    }
+    // r < |y|, so r as i128 is safe.
+    let mut r = r as i128;
+    if y.is_negative() {
+        r = r.neg();
     }
     Some((q, r))
 }
@@ -468,8 +470,13 @@ pub fn i256_div_mod_floor(
     // r < y, so r as i128 is safe.
     let mut r = r as i128;
     if x1.is_negative() != x2.is_negative() {
-        q = q.neg() - 1;
-        r = y - r;
+        // The quotient is negative: round it against floor. This must only
+        // be done if the division is not exact!
+        q = q.neg();
+        if r != 0 {
+            q -= 1;
+            r = y - r;
+        }
     }
     Some((q, r))
 }
